@@ -167,8 +167,21 @@ struct Run {
   }
 
   // ---- reports ---------------------------------------------------------------------------------
+  // the class invariant is broken: report it and replace the object (anything computed from it would
+  // only repeat the same defect)
+  bool check_ok(int s) {
+    bool ok = true;
+    try { ok = slot[s]->OK(); } catch (...) { ok = false; }
+    if (ok) return false;
+    dimension_type n = dim(s);
+    { OS o; o << "note okfalse slot " << s; J.line(o.str()); }
+    { OS o; o << "reset " << s << " " << n; J.line(o.str()); }
+    slot[s].reset(new S(n, UNIVERSE));
+    return true;
+  }
   void status_line(int s) {
-    OS o; slot[s]->ascii_dump(o);
+    OS o;
+    try { slot[s]->ascii_dump(o); } catch (...) { OS l; l << "st " << s << " +DUMP_THROWS"; J.line(l.str()); return; }
     std::string t = o.str(); size_t b = 0, a = t.find('\n');
     while (a != std::string::npos && t[b] != '-' && t[b] != '+') { b = a + 1; a = t.find('\n', b); }
     OS l; l << "st " << s << " " << t.substr(b, a == std::string::npos ? a : a - b);
@@ -183,6 +196,7 @@ struct Run {
   void res(int s) {
     dimension_type n = dim(s);
     { OS o; o << "res " << s << " " << n << " cons"; put_cs(o, slot[s]->constraints(), n); J.line(o.str()); }
+    if (check_ok(s)) return;
     { S c(*slot[s]); OS o; o << "res " << s << " " << n << " mcons"; put_cs(o, c.minimized_constraints(), n); J.line(o.str()); }
     if (K == 0) {   // Polyhedron(Topology, const Box&) builds from the intervals directly: a third reading
       OS o; o << "res " << s << " " << n << " poly";
@@ -190,7 +204,6 @@ struct Run {
       else { C_Polyhedron ph(*slot[s]); put_cs(o, ph.constraints(), n); }
       J.line(o.str());
     }
-    if (!slot[s]->OK()) { OS o; o << "note okfalse slot " << s; J.line(o.str()); }
     status_line(s);
   }
 
@@ -278,8 +291,8 @@ struct Run {
       else if (w == 1) { OS o; o << "obs " << s << " " << n << " mcons"; put_cs(o, q->minimized_constraints(), n); J.line(o.str()); }
       else query(s, *q);
     }
-    if (!q->OK()) { OS o; o << "note okfalse slot " << s; J.line(o.str()); }
     status_line(s);
+    if (!on_copy) check_ok(s);
   }
 
   // ---- creation ----------------------------------------------------------------------------------
